@@ -90,8 +90,10 @@ func Gen(r *common.Rand, big bool) TxSpec {
 		}
 		switch r.Intn(4) {
 		case 0:
-			in.PrevNil = true
-			in.Sats = 0
+			in.PrevNil = true // the spent script is not known; its value may be (the extended format carries it)
+			if r.Bool() {
+				in.Sats = 0
+			}
 		case 1:
 			in.Prev = ""
 		default:
